@@ -49,6 +49,7 @@ FlatInl(i, ctx) ==
       [] i[1] = "isdt" -> FlatInls(i[2], Enter(ctx, "SDT"))
       [] i[1] = "fn"   -> << <<"t", i[2], Enter(ctx, "NOTE").cls, ctx.marks>> >>
       [] i[1] = "cm"   -> << <<"t", i[2], Enter(ctx, "COMMENT").cls, ctx.marks>> >>
+      [] i[1] = "itbx" -> Hard \o FlatBlocks(i[2], Enter(Mark(ctx, "tbx"), "TEXTBOX")) \o Hard     \* text box anchored in the paragraph
 
 FlatInls(is, ctx) == ConcatAll([k \in DOMAIN is |-> FlatInl(is[k], ctx)])
 
@@ -463,6 +464,14 @@ TypedTextFrom(kinds, ws, k, i) ==
          \/ (kinds[k] = "d" /\ i + 1 <= Len(ws) /\ ws[i] = "2024-01-02" /\ ws[i + 1] = "03:04:05"    \* date and time as two words
                 /\ TypedTextFrom(kinds, ws, k + 1, i + 2))
 TypedTextOK(kinds, ws) == TypedTextFrom(kinds, ws, 1, 1)
+
+\* numbers in the FIRST row of a sheet (year columns): the header cell shows the value (as the number or as its text)
+TypedHeaderCellOK(kind, oc) ==
+    CASE kind = "n"  -> (oc.k = "num" /\ oc.n2 = 14) \/ (oc.k = "str" /\ oc.s = "7")
+      [] kind = "nf" -> (oc.k = "num" /\ oc.n2 = 3) \/ (oc.k = "str" /\ oc.s = "1.5")
+      [] kind = "z"  -> (oc.k = "num" /\ oc.n2 = 0) \/ (oc.k = "str" /\ oc.s = "0")
+      [] OTHER       -> TRUE
+TypedHeaderOK(kinds, row) == Len(row) >= Len(kinds) /\ \A j \in DOMAIN kinds : TypedHeaderCellOK(kinds[j], row[j])
 
 \* a header-less typed grid (ODS): every row in place; trailing all-empty columns may be trimmed
 TypedGridOK(kinds, grid, fmt, dev) ==
